@@ -1,7 +1,7 @@
 #!/bin/bash
 # usage: verify_mutant.sh <PID> <variant>   e.g. C01 a     -> one line of JSON on stdout
 pid=$1; v=$2
-out=/tmp/mut/out/$pid/$v
+out=${MUTROOT:-/tmp/mut/out}/$pid/$v
 wt=/tmp/ver/${pid}_$v
 rm -rf $wt; mkdir -p /tmp/ver
 git -C /repo worktree add -q --detach $wt HEAD 2>/dev/null || { echo "{\"id\":\"$pid/$v\",\"error\":\"worktree\"}"; exit 0; }
